@@ -272,13 +272,15 @@ Definition obs_ok (s : state) (o : obs) : bool :=
   && N.eqb (o_ch o) (o_rr o) && N.eqb (o_mh o) (o_rr o)
   && match o_full o with None => true | Some f => list_eqNN (full s) f end.
 
-Fixpoint accepts (s : state) (tr : list (label * obs)) : bool :=
+(* one trace entry: the labels the implementation step corresponds to (a real call is selection + outcome
+   [+ reinstatement] with no observation point in between), then the observation *)
+Fixpoint accepts (s : state) (tr : list (list label * obs)) : bool :=
   match tr with
   | [] => true
-  | (l, o) :: r => match step s l with None => false | Some s' => obs_ok s' o && accepts s' r end
+  | (ls, o) :: r => match run s ls with None => false | Some s' => obs_ok s' o && accepts s' r end
   end.
 
-Definition c15_case := list (label * obs).
+Definition c15_case := list (list label * obs).
 Fixpoint c15_mismatch_from (i : N) (cs : list c15_case) : list N :=
   match cs with
   | [] => []
